@@ -485,7 +485,7 @@ PART = KllC07()
 
 class C07Kll(Spec):
     pid = "C07"
-    props_modules = ["DSProofs.Props.C07_View", "DSProofs.Props.C07_Kll"]
+    props_modules = ["DSProofs.Props.C07_View", "DSProofs.Props.C07_Kll", "DSProofs.Props.C07_Kll_Repaired"]
     tfamilies = ["kll"]
     rule = ("histories over 1-6 live KLL sketches (int64 / double / string with a length-first comparator; k in {8,12,16,20,32} "
             "quick, + {64,200} thorough, mixed) with sorted/reversed/random/constant/duplicate-heavy/NaN-containing streams, "
